@@ -12,7 +12,7 @@ prop("C16", pkg="c16", level="fault_enumeration",
                 "b[:n] == Marshal(v) (values with maps: equal up to the order of map entries, else decoding to v); every shorter length gave an error satisfying "
                 "errors.Is(err, io.ErrShortBuffer), no panic, and no byte at or beyond len(b) (or before b) was modified.",
      level_note="Exhaustive over cut points of each sampled value, sampled over values/types. Trusted base: harness/pgen (builder, wire walker), protowire, the Go toolchain. "
-                "Known-finding classes are excluded and counted in excluded_known.",
+                "The three defect classes this check found (KF-C16-001 repaired by d9326da, -002 by ede0efc, -003 by 4eb59c8) are 'fixed': nothing is excluded, their witnesses run as regression cases.",
      assumptions=["same domain restrictions as C03 (no nil elements in []*T, no pointers to slice-kinded types, rep only on slices/maps, distinct field numbers)",
                   "for values with maps, equality of MarshalTo output and Marshal output is taken up to the order of entries of each map (Go map iteration order); "
                   "if that fails the output must still decode to v",
